@@ -4,6 +4,8 @@ import (
 	"bytes"
 	"fmt"
 	"os"
+	"runtime"
+	"runtime/debug"
 	"sync"
 	"sync/atomic"
 	"testing"
@@ -25,6 +27,9 @@ func TestMain(m *testing.M) {
 // (iii) codec round trip / determinism / documented limits, (iv) decoder robustness in
 // address-space-capped child processes.
 func TestCheck(t *testing.T) {
+	debug.SetGCPercent(400) // allocation-heavy workload, plenty of memory: fewer collections
+	ballast := make([]byte, 256<<20)
+	defer runtime.KeepAlive(ballast)
 	run := vkit.New("C14", "main", "exploration")
 	run.SetRule("(i) one evaluation = one single-field perturbation (field x kind x chain length x tipset index) of a random base payload for every chain length 1..128, or of a VRF input; non-trivial = the perturbed description differs from the base; distinct = field|kind|length|index. " +
 		"(ii) one evaluation = one random chain (every length 1..128) with all prefix keys compared between Key/KeysForPrefixes/AllPrefixes/Prefix and a fresh deep copy; distinct = call order x content hash. " +
@@ -35,23 +40,30 @@ func TestCheck(t *testing.T) {
 		"value generators cover the boundary shapes listed in DESIGN.md C14; CIDs are at most 100 bytes",
 		"mutation is seeded and structure-aware but not coverage-guided; allocation is measured as runtime.MemStats.TotalAlloc growth across one decode call in a child with RLIMIT_AS=2GiB",
 		"third-party decoders reached through go-f3 types (go-bitfield, go-state-types big.Int, cbor-gen CID, klauspost zstd) are part of the decode path under test")
+	only := os.Getenv("VERIF_C14_ONLY") // development aid: run a single sub-monitor (result is then inconclusive by construction of the driver's evidence, do not register)
+	want := func(name string, sub int64) bool {
+		if run.Case >= 0 {
+			return run.Case/caseMul == sub
+		}
+		return only == "" || only == name
+	}
 	t0 := time.Now()
 	lap := func(what string) { // log only, never part of an oracle
 		fmt.Printf("[c14] %s done after %.1fs\n", what, time.Since(t0).Seconds())
 	}
-	if run.Case < 0 || run.Case/caseMul == subSign {
+	if want("sign", subSign) {
 		runSign(run)
 		lap("sign")
 	}
-	if run.Case < 0 || run.Case/caseMul == subKeys {
+	if want("keys", subKeys) {
 		runKeys(run)
 		lap("keys")
 	}
-	if run.Case < 0 || run.Case/caseMul == subCodec {
+	if want("codec", subCodec) {
 		runCodec(run)
 		lap("codec")
 	}
-	if run.Case < 0 || run.Case/caseMul == subRobust {
+	if want("robust", subRobust) {
 		runRobust(run)
 		lap("robust")
 	}
@@ -69,11 +81,14 @@ func TestCheck(t *testing.T) {
 // keep decoded values alive across later decodes (a pooled buffer handed back while still
 // referenced shows up as a corrupted value or as a race report).
 func TestCheckRace(t *testing.T) {
+	debug.SetGCPercent(400)
+	ballast := make([]byte, 128<<20)
+	defer runtime.KeepAlive(ballast)
 	run := vkit.New("C14", "zstdrace", "exploration")
 	run.SetRule("one evaluation = one value encoded and decoded through a ZSTD instance shared by 16 goroutines, compared with its plain CBOR form, plus re-verification of values held across later decodes; distinct = type|hash(encoding)")
 	run.Assume("the Go race detector reports only races that actually happen in the explored schedules")
 	const G = 16
-	iters := run.N(100, 3000)
+	iters := run.N(100, 2500)
 	names := []string{"gpbft.GMessage", "gpbft.PartialGMessage", "certs.FinalityCertificate", "chainexchange.Message", "gpbft.ECChain"}
 	// shared frames every goroutine decodes
 	type shared struct {
@@ -132,17 +147,17 @@ func TestCheckRace(t *testing.T) {
 				z, err := td.zEnc(v)
 				if err != nil {
 					if len(b) <= zstdCap {
-						run.Violation(fmt.Sprintf("C14 zstdrace: shared ZSTD.Encode failed for %s (%d bytes): %v", td.name, len(b), err), map[string]any{"case": caseID})
+						run.Violation(fmt.Sprintf("C14 zstdrace: shared ZSTD.Encode failed for %s", td.name), map[string]any{"case": caseID, "cbor_len": len(b), "error": err.Error()})
 					}
 					continue
 				}
 				y := td.newv()
 				if err := td.zDec(z, y); err != nil {
-					run.Violation(fmt.Sprintf("C14 zstdrace: shared ZSTD.Decode(Encode(x)) failed for %s shape=%s under concurrency: %v", td.name, shape, err), map[string]any{"case": caseID, "goroutine": g})
+					run.Violation(fmt.Sprintf("C14 zstdrace: shared ZSTD.Decode(Encode(x)) failed under concurrency (%s)", td.name), map[string]any{"case": caseID, "goroutine": g, "shape": shape, "error": err.Error()})
 					continue
 				}
 				if b2, err := td.enc(y); err != nil || !bytes.Equal(b, b2) || !td.eq(v, y) {
-					run.Violation(fmt.Sprintf("C14 zstdrace: value corrupted by concurrent use of a shared ZSTD instance (%s shape=%s)", td.name, shape), map[string]any{"case": caseID, "goroutine": g})
+					run.Violation(fmt.Sprintf("C14 zstdrace: value corrupted by concurrent use of a shared ZSTD instance (%s)", td.name), map[string]any{"case": caseID, "goroutine": g, "shape": shape})
 				}
 				// a shared frame
 				s := sh[r.Intn(len(sh))]
@@ -151,7 +166,7 @@ func TestCheckRace(t *testing.T) {
 				}
 				ys := s.t.newv()
 				if err := s.t.zDec(s.z, ys); err != nil {
-					run.Violation(fmt.Sprintf("C14 zstdrace: shared frame failed to decode under concurrency (%s): %v", s.t.name, err), map[string]any{"case": caseID})
+					run.Violation(fmt.Sprintf("C14 zstdrace: shared frame failed to decode under concurrency (%s)", s.t.name), map[string]any{"case": caseID, "error": err.Error()})
 				} else if b3, err := s.t.enc(ys); err != nil || !bytes.Equal(b3, s.b) {
 					run.Violation(fmt.Sprintf("C14 zstdrace: shared frame decoded to a different value under concurrency (%s)", s.t.name), map[string]any{"case": caseID})
 				}
